@@ -257,6 +257,7 @@ struct Tool {
     p.fmt = r.chance(0.3) ? 1 : 0;
     p.vol_jitter = r.chance(0.5);
     { long strides[6] = {0, 0, 0, 5, 29, 173}; p.alloc_stride = strides[r.below(6)]; }
+    if (r.chance(0.3)) { p.nmol = 4 + (int)r.below(5); p.sparse_mask = (long)(r.next() & 0xfff); if (r.chance(0.3)) p.sparse_mask = 0xaaa; }
     c05tool::tool_generate(p, r, tier);
     p.pick_strategy(r);
     return p;
@@ -267,7 +268,7 @@ struct Tool {
     p.base_to_json(v);
     v.set("tool", c05tool::engine_name).set("N", p.N).set("F", p.F).set("first_frame", p.first_frame).set("nframes", p.nframes)
      .set("case_seed", (long long)p.case_seed).set("nmol", p.nmol).set("chain", p.chain).set("fmt", p.fmt).set("variant", p.variant)
-     .set("block", p.block).set("vol_jitter", p.vol_jitter).set("alloc_stride", p.alloc_stride).set("variant_meaning", c05tool::tool_variant_json(p));
+     .set("block", p.block).set("vol_jitter", p.vol_jitter).set("alloc_stride", p.alloc_stride).set("sparse_mask", p.sparse_mask).set("variant_meaning", c05tool::tool_variant_json(p));
     return v;
   }
   static Plan from_json(const js::Value &v) {
@@ -277,6 +278,7 @@ struct Tool {
     p.case_seed = (uint64_t)v.num("case_seed", 0); p.nmol = (int)v.num("nmol", 4); p.chain = (int)v.num("chain", 2); p.fmt = (int)v.num("fmt", 0);
     p.variant = (int)v.num("variant", 0); p.block = (int)v.num("block", 0); p.vol_jitter = (int)v.num("vol_jitter", 0);
     p.alloc_stride = (long)v.num("alloc_stride", 0);
+    p.sparse_mask = (long)v.num("sparse_mask", 0);
     return p;
   }
 
@@ -289,6 +291,7 @@ struct Tool {
     if (p.block > 0) { Plan q = p; q.block = 0; out.push_back(q); }
     if (p.nmol > 4) { Plan q = p; q.nmol = 4; out.push_back(q); }
     if (p.vol_jitter) { Plan q = p; q.vol_jitter = 0; out.push_back(q); }
+    if (p.sparse_mask) { Plan q = p; q.sparse_mask = 0; out.push_back(q); }
     if (p.alloc_stride > 0) { Plan q = p; q.alloc_stride = 0; out.push_back(q); q = p; q.alloc_stride = p.alloc_stride * 4; out.push_back(q); }
     if (p.fmt) { Plan q = p; q.fmt = 0; out.push_back(q); }
     for (int b = 0; b < 8; b++) if (p.variant & (1 << b)) { Plan q = p; q.variant &= ~(1 << b); out.push_back(q); }
@@ -445,11 +448,16 @@ std::string gen_trajectory(const Plan &p, double box, int) {
   for (int f = 0; f < p.F; f++) {
     double L = box * (p.vol_jitter ? (1.0 + 0.05 * (r.unit() - 0.5)) : 1.0);
     std::vector<double> x((size_t)n * 3);
+    bool sparse = (p.sparse_mask >> f) & 1;
     for (int m = 0; m < p.nmol; m++) {
       double c[3] = {r.unit() * L, r.unit() * L, r.unit() * L};
+      if (sparse) {  // lattice with spacing 0.8 nm (2 x 2 x 3 sites): no pair of different molecules within 0.7 nm
+        c[0] = 0.05 + 0.8 * (m % 2); c[1] = 0.05 + 0.8 * ((m / 2) % 2); c[2] = 0.05 + 0.5 * (m / 4);
+        if (m >= 4) c[2] = 0.05 + 0.8 * (m / 4);
+      }
       for (int b = 0; b < p.chain; b++) {
         for (int k = 0; k < 3; k++) {
-          c[k] += (b == 0 ? 0.0 : 0.18 * (r.unit() - 0.5));
+          c[k] += (b == 0 ? 0.0 : (sparse ? 0.02 : 0.18) * (r.unit() - 0.5));
           x[(size_t)(m * p.chain + b) * 3 + (size_t)k] = c[k];
         }
       }
